@@ -247,6 +247,12 @@ func TestC01(t *testing.T) {
 		prof := hist.PickProfile(rt)
 		tr := &hist.Trace{Params: p, Roles: hist.Roles(p, 3), Profile: prof}
 		uu := hist.NewU(rt)
+		// node-local chain-state rotation (which old versions a node keeps on disk): the built-in default, an archive
+		// node (the devnet's setting), "last version only" and small schedules; replica 0 keeps the default
+		rots := []*[3]int64{nil, {0, 1, 0}, {0, 0, 0}, {1, 0, 0}, {3, 2, 1}, {2, 5, 0}, {10, 100, 10}}
+		for ri := 1; ri < len(tr.Roles); ri++ {
+			tr.Roles[ri].Rot = rots[uu.N(len(rots), "rot")]
+		}
 		nb := uu.Range(8, maxBlocks, "nblocks")
 		var g *hist.Gen
 		blocks := 0
